@@ -131,6 +131,8 @@ type vRotIdP struct {
 	reuse    int
 	reusable bool // refresh tokens are not rotated out: any earlier token is still accepted
 	omitID   func(n int) bool // the n-th successful refresh response carries no id_token (allowed by OIDC core 12.2)
+	failFirst int             // that many refresh attempts are answered 503 before the provider recovers
+	outcomes  []bool          // per refresh call, in order: answered with new tokens?
 }
 
 func (r *vRotIdP) handler(email string) func(url.Values) (int, string, string, error) {
@@ -140,10 +142,18 @@ func (r *vRotIdP) handler(email string) func(url.Values) (int, string, string, e
 		if form.Get("grant_type") != "refresh_token" {
 			return 400, "application/json", `{"error":"unsupported_grant_type"}`, nil
 		}
+		if r.failFirst > 0 {
+			// a transient failure: the presented token is not consumed
+			r.failFirst--
+			r.outcomes = append(r.outcomes, false)
+			return 503, "application/json", `{"error":"temporarily_unavailable"}`, nil
+		}
 		if form.Get("refresh_token") != fmt.Sprintf("rt%d", r.cur) && !r.reusable {
 			r.reuse++
+			r.outcomes = append(r.outcomes, false)
 			return 400, "application/json", `{"error":"invalid_grant"}`, nil
 		}
+		r.outcomes = append(r.outcomes, true)
 		r.cur++
 		r.succ++
 		id := vJWT(vKeyRSA, "RS256", vClaims(email, nil))
@@ -164,6 +174,7 @@ func (r *vRotIdP) handler(email string) func(url.Values) (int, string, string, e
 var vRotSeq int
 
 type vSchedOutcome struct {
+	outcomes []bool // the provider's answer to each refresh call of the trace, in order
 	trace    []vStep
 	succ     int
 	reuse    int
@@ -174,6 +185,7 @@ type vSchedOutcome struct {
 }
 
 var vReusableTokens bool
+var vRotFailFirst int
 
 // vRunSchedule seeds a stale session, runs n concurrent requests under `choose`, and reports.
 func vRunSchedule(t *testing.T, e *vEnv, n int, signOutTid int, choose func(step int, enabled []int, last int) int) (*vSchedOutcome, []int, []int) {
@@ -182,7 +194,7 @@ func vRunSchedule(t *testing.T, e *vEnv, n int, signOutTid int, choose func(step
 	e.redis.locks = map[string]int{}
 	e.redis.ops = nil
 	e.redis.mu.Unlock()
-	rot := &vRotIdP{reusable: vReusableTokens}
+	rot := &vRotIdP{reusable: vReusableTokens, failFirst: vRotFailFirst}
 	e.idp.onToken = rot.handler("user@example.com")
 	b := e.newBrowser("https://app.example.com")
 	b.seedSession("user@example.com", 2*time.Hour, 30) // stale, refresh token rt0
@@ -210,7 +222,7 @@ func vRunSchedule(t *testing.T, e *vEnv, n int, signOutTid int, choose func(step
 		res[tid] = e.serveNoUpstreamReset(req)
 	}
 	trace, width, chosen, dead := sched.run(e, n, work, choose)
-	o := &vSchedOutcome{trace: trace, succ: rot.succ, reuse: rot.reuse, deadlock: dead,
+	o := &vSchedOutcome{outcomes: append([]bool(nil), rot.outcomes...), trace: trace, succ: rot.succ, reuse: rot.reuse, deadlock: dead,
 		status: make([]int, n), hit: make([]bool, n), token: make([]string, n)}
 	hits := e.upstream.Take()
 	for i := 0; i < n; i++ {
@@ -321,6 +333,14 @@ func vExploreSignOutRaces(t *testing.T, out *vEmitter, e *vEnv) {
 	vReusableTokens = false
 }
 
+// vExploreSignOutFlaky: the same race while the provider fails the first refresh attempt (the session stays
+// valid, so the request that tried goes on) and answers the next one.
+func vExploreSignOutFlaky(t *testing.T, out *vEmitter, e *vEnv) {
+	vRotFailFirst = 2
+	vExplore(t, out, e, 2, vPick(3, 99), vPick(300, 5000), "signout-flaky", 1)
+	vRotFailFirst = 0
+}
+
 func driveC12(t *testing.T, out *vEmitter) {
 	e := vSchedEnv(t)
 	vExplore(t, out, e, 2, vPick(3, 99), vPick(400, 20000), "2req", -1)
@@ -398,15 +418,45 @@ func vCheckSignOutRace(out *vEmitter, o *vSchedOutcome, n, so int, e *vEnv) {
 		}
 	}
 	out.Obs("schedule-signout", true, vL("signout_race", vS(strings.Join(seq, " ")), vI(int64(o.status[so]))))
-	if o.status[so] != 302 || delAt < 0 {
-		return
-	}
-	// after a successful sign-out: is the stored session back?
+	// is a session stored once both requests are finished?
 	stored := false
 	for _, k := range e.redis.Keys() {
 		if !strings.HasSuffix(k, ".lock") {
 			stored = true
 		}
+	}
+	// ---- the same schedule through Model/SignOutRace.v: one model step per store / lock operation and per refresh
+	// ATTEMPT (consecutive token calls of one request belong to one attempt: x/oauth2 retries a failed first call
+	// with the other client-authentication style); the provider's answers are taken from what it really answered.
+	// Deletions by the ordinary request (clearing a session it could not load) have no model step.
+	if !o.deadlock && n == 2 {
+		var schedSX, ansSX []vsx
+		call := 0
+		lastTok := map[int]bool{}
+		for _, s := range o.trace {
+			if s.kind == "token" {
+				ok := call < len(o.outcomes) && o.outcomes[call]
+				call++
+				if lastTok[s.tid] {
+					// same attempt: its outcome is that of its last call
+					ansSX[len(ansSX)-1] = vBool(ok)
+					continue
+				}
+				lastTok[s.tid] = true
+				ansSX = append(ansSX, vBool(ok))
+				schedSX = append(schedSX, vBool(s.tid == so))
+				continue
+			}
+			lastTok[s.tid] = false
+			if s.tid != so && s.kind == "del" {
+				continue
+			}
+			schedSX = append(schedSX, vBool(s.tid == so))
+		}
+		out.Case("signout-race-model", true, vL(vBool(stored), vBool(o.hit[other])), vL("signout_race", vL(ansSX...), vL(schedSX...)))
+	}
+	if o.status[so] != 302 || delAt < 0 {
+		return
 	}
 	if !stored {
 		return
